@@ -79,6 +79,17 @@ fn main() {
             let mut o = util::Out::create(&out);
             let mut rng = util::Rng::new(seed);
             let mut fails = 0;
+            // finding D13: a 14-epoch-old link timestamp aliases to "two ahead" in one cascade and is read as ancient by
+            // a second cascade one epoch behind; a pinned reader holds the shared child (C02)
+            for (name, age) in [("d13_aliased_stamp_two_cascades_age14", 14usize), ("d13_aliased_stamp_two_cascades_age30", 30), ("d13_control_age13", 13), ("d13_control_age15", 15)] {
+                let (p, watch, site, nth, phases) = rc::f6_program(age);
+                let (line, mon) = rc::run_case_phased(&p, &mut rng, watch, site, nth, phases, 64);
+                o.line(&line);
+                for m in mon {
+                    fails += 1;
+                    o.line(&format!("{} [corpus {}]", m, name));
+                }
+            }
             for (name, p, trig, manual) in rc::corpus_triggered() {
                 let (line, mon) = rc::run_case_triggered(&p, &mut rng, trig, manual);
                 o.line(&line);
@@ -155,6 +166,20 @@ fn main() {
             let n: usize = arg(&args, "--cases").and_then(|s| s.parse().ok()).unwrap_or(if thorough { 6000 } else { 600 });
             let (stalls, steps, fails) = ebrstall::run(&out, seed, thorough, n);
             println!("ebr-stall: cases={} steps={} cases_with_stalled_traversal={} property_failures={}", n, steps, stalls, fails);
+        }
+        "rc-f6" => {
+            let age: usize = arg(&args, "--age").and_then(|s| s.parse().ok()).unwrap_or(14);
+            let mut o = util::Out::create(&out);
+            let mut rng = util::Rng::new(seed);
+            let (p, watch, site, nth, phases) = rc::f6_program(age);
+            let (line, mon) = rc::run_case_phased(&p, &mut rng, watch, site, nth, phases, 64);
+            o.line(&line);
+            let nf = mon.len();
+            for m in mon {
+                o.line(&m);
+            }
+            o.finish();
+            println!("rc-f6: age={} monitor_failures={}", age, nf);
         }
         "c03" => {
             let (checks, _p, fails) = c03::run(&out, seed, thorough);
